@@ -13,8 +13,8 @@ struct Shared {
 };
 
 // what the trigger thread does with its trigger object(s) before the line trips
-enum Life { DIRECT, MOVE_CTOR, MOVE_CTOR_CHAIN, MOVE_ASSIGN, TWO_TRIGGERS, NLIFE };
-static const char* LIFEN[] = {"direct", "move_ctor", "move_ctor_chain", "move_assign", "two_triggers"};
+enum Life { DIRECT, MOVE_CTOR, MOVE_CTOR_CHAIN, MOVE_ASSIGN, TWO_TRIGGERS, SELF_MOVE_ASSIGN, NLIFE };
+static const char* LIFEN[] = {"direct", "move_ctor", "move_ctor_chain", "move_assign", "two_triggers", "self_move_assign"};
 
 template<class MakeTrig, class MakeDet, class MakeDet2, class MakeTrig2, class MakeDet3>
 static void scenario(vrf::Round& R, const char* kind, MakeTrig make_trigger, MakeDet make_detector, MakeDet2 make_other_detector,
@@ -92,6 +92,14 @@ static void scenario(vrf::Round& R, const char* kind, MakeTrig make_trigger, Mak
                 case TWO_TRIGGERS: {
                     final_owner = std::move(t1);
                     keep_other.reset(new TripWireTrigger(make_trigger()));
+                    break;
+                }
+                case SELF_MOVE_ASSIGN: {
+                    // a trigger move-assigned to itself (an alias, a compaction loop) is still the trigger of its line
+                    TripWireTrigger& alias = *t1;
+                    *t1 = std::move(alias);
+                    vrf::user_point();
+                    final_owner = std::move(t1);
                     break;
                 }
             }
